@@ -312,6 +312,12 @@ func run(r *hx.Result, cfg hx.Config) {
 	for _, how := range []string{"kill", "stop"} {
 		runTimed(r, cfg, how, rng.Int63())
 	}
+	// writes acknowledged while an AOFSHRINK is in progress, then restart on the rewritten log
+	// (shrinktail.go; own random stream so that the histories below keep their seeds)
+	runShrinkTail(r, cfg, rand.New(rand.NewSource(cfg.Seed^0x5ca1ab1e)))
+	// a kill in the middle of a log write: recovery of a torn tail, short writes, second restart
+	// (torntail.go; the tie of c03_crash_prefix)
+	runTornTail(r, cfg, rand.New(rand.NewSource(cfg.Seed^0x7011ed)))
 	n := 14
 	if cfg.Tier == "thorough" || cfg.Search {
 		n = 200
